@@ -124,6 +124,7 @@ def supported_patterns(tier):
 # test is most likely to get wrong), and plain literals
 LITERALISH = ["ab", "ab{2}c", "0{3}", "-{2,4}", "id=7{2}5{,2}", "a b", "a-b_c", "a.b", "a|b", "ab?", "ab*",
               "ab+", "a[b]c", "a(b)c", "a\\.b", "a\\{2\\}", "^ab", "ab$", "a{2", "a}b", "{a}", "a{,}b", "a,b",
+              "\\d+\\$", "a\\$", "end\\\\$", "\\^a", "a\\^b", "\\$\\$", "a\\\\", "\\Aa\\$", "[$]$", "a\\Z", "x\\.y\\?",
               "é{2}", "a#b", "a b{2}", "x~y", "a=b&c", "a/b:c", "<a>", "\"a\"", "a'b", "a%sb", "a{0}b"]
 
 
